@@ -470,6 +470,36 @@ def loop_ctx(rng, variant):
     return s.done()
 
 
+_burst_seq = [0]
+
+
+def http_burst(rng, rounds, t=10, i=3):
+    """k = 2..8 SIMULTANEOUS first requests of a source the instance has never seen (every third
+    round NewConnection for that source's address races them): one connection must be announced,
+    every accepted envelope is read on it exactly once; finally everything goes idle and the
+    clock passes the timeout: every reader fails.  Each announced connection gets a reader loop
+    at once (autoread), as an application's OnConnect would."""
+    _burst_seq[0] += 1
+    s = Script('http', 'http burst rounds=%d T=%d I=%d' % (rounds, t, i), timeout_s=t, interval_s=i, autoread=True)
+    g = ValGen(rng)
+    for n in range(rounds):
+        k = rng.choice([2, 3, 4, 6, 8, 8])
+        ids = []
+        for _ in range(k):
+            s.n += 1
+            ids.append(s.n)
+        v = hval(g, '', small=True)
+        v['bl'], v['str'], v['nrec'], v['nnxt'] = min(v['bl'], 16), n % 3, 0, 0   # small: nothing but the race
+        v['id'] = rng.randrange(2**62) * 2 + 16 * n        # k consecutive ids, distinct across rounds
+        s.ctl('burst', src='f%d-%d' % (_burst_seq[0], n), ids=ids, v=v, **({'dial': True} if n % 3 == 2 else {}))
+    s.ctl('q')                                     # one reader per connection is waiting, nothing else
+    s.ctl('tick', s=i - 1 if i > 1 else 1)         # not yet
+    s.ctl('q')
+    s.ctl('tick', s=t + i)                         # idle past the timeout: every reader fails
+    s.ctl('q')
+    return s.done()
+
+
 # ------------------------------------------------------------------------ generate ----
 
 def generate(tier, rng):
@@ -516,5 +546,9 @@ def generate(tier, rng):
         for active in (False, True):
             for _ in range(2 if quick else 20):
                 out.append(http_tick(rng, 'steps', t, i, 0, active))
+    # simultaneous first requests of fresh sources (a check-then-act race in the connection table
+    # needs many attempts): 60 x 25 rounds (quick) / 400 x 25 (thorough)
+    for _ in range(60 if quick else 400):
+        out.append(http_burst(rng, 25, *rng.choice(TICK_CFGS)))
     rng.shuffle(out)
     return out
